@@ -22,7 +22,12 @@ class Val:
         self.tag, self.ret = tag, ret
 
     def __call__(self, *obs):
-        return ('made', self.tag, tuple(R(o) for o in obs)) if self.ret else None
+        if not self.ret:
+            return None
+        if self.tag % 5 == 0:
+            # falsy, but not None: still an adapter
+            return [0, '', (), False, 0.0][(self.tag // 5) % 5]
+        return ('made', self.tag, tuple(R(o) for o in obs))
 
     def __repr__(self):
         return 'V%s' % self.tag
@@ -36,7 +41,7 @@ def R(x, depth=0):
     """Canonical, implementation-independent rendering."""
     if depth > 6:
         return '...'
-    if x is None or isinstance(x, (bool, int)):
+    if x is None or isinstance(x, (bool, int, float)):
         return repr(x)
     if isinstance(x, str):
         return repr(x)
@@ -370,7 +375,7 @@ class Program:
         if rng.random() < 0.1:
             T = self.weird()
         k = rng.choice(['ext', 'ioe', 'sro', 'iro', 'rebase', 'get', 'call', 'names', 'contains', 'eqhash', 'interfaces',
-                        'spb', 'sib', 'algebra', 'cpdesc', 'weakref'])
+                        'spb', 'sib', 'algebra', 'cpdesc', 'weakref', 'lifecycle'])
         if k == 'ext':
             self.emit('%s.extends(%s)' % (R(S), R(T)), lambda: bool(S.extends(T)))
             self.emit('%s.extends(%s,False)' % (R(S), R(T)), lambda: bool(S.extends(T, False)))
@@ -428,6 +433,29 @@ class Program:
             self.emit('%s.__providedBy__' % c.__name__, lambda: list(c.__providedBy__.flattened()))
         elif k == 'weakref':
             self.emit('%s.weakref()() is S' % R(S), lambda: S.weakref()() is S)
+        elif k == 'lifecycle':
+            # a short-lived interface with an attribute: queried, dropped, collected - it must really go away
+            # (its weak reference dies, its base forgets the dependent) in both implementations
+            import weakref
+
+            def life():
+                self.serial += 1
+                base = rng.choice(self.ifaces)
+                T = InterfaceClass('ITmp', (base,), {'a': zi.Attribute('tmp'), 'm': zi.fromFunction(lambda x: x, name='m')},
+                                   __module__='%s_tmp%d' % (self.mod, self.serial))
+                out = [T.get('a') is not None, 'm' in T, T.queryDescriptionFor('zz') is None, list(T.names(all=True)) != []]
+                directlyProvides(self.objs[0], T, *directlyProvidedBy(self.objs[0]))
+                out.append(bool(T.providedBy(self.objs[0])))
+                noLongerProvides(self.objs[0], T)
+                wr = weakref.ref(T)
+                ndep = len(list(base.dependents.keys()))
+                del T
+                gc.collect()
+                gc.collect()
+                out.append(('dead', wr() is None))
+                out.append(('dependents shrank', len(list(base.dependents.keys())) < ndep))
+                return out
+            self.emit('lifecycle of a temporary interface', life)
 
     def op_cmp(self):
         rng = self.rng
@@ -576,6 +604,10 @@ class Program:
             if r2 < 0.1:
                 # ... and through the sibling entry points that share that cache, with a default
                 self.emit(d + '[again:lookup+default]', lambda: reg.lookup(req, prov, name, 'DEFAULT'))
+                self.emit(d + '[again:lookup+other default]', lambda: reg.lookup(req, prov, name, 'OTHER'))
+                self.emit(d + '[again:lookup, no default]', lambda: reg.lookup(req, prov, name))
+                self.emit(d + '[again:lookup1, no default]', lambda: reg.lookup1(one, prov, name))
+                self.emit(d + '[again:queryAdapter kw]', lambda: reg.queryAdapter(object=o1, provided=prov, name=name))
                 self.emit(d + '[again:lookup1+default]', lambda: reg.lookup1(one, prov, name, 'DEFAULT'))
                 self.emit(d + '[again:hook+default]', lambda: reg.adapter_hook(prov, o1, name, 'DEFAULT'))
         elif r2 < 0.4 and isinstance(plain_req, tuple) and k in ('lookup', 'lookup_d', 'lookupAll', 'names', 'subscriptions'):
